@@ -25,6 +25,9 @@ mod test_util;
 
 pub mod async_device;
 
+#[cfg(feature = "verif-hooks")]
+pub mod verif;
+
 pub mod nb_device;
 use nb_device::state::State;
 
